@@ -22,6 +22,7 @@ RULES = {
     "R-04.5": "Parser reads are bounded: get_bytes/seek raise FormError out of bounds and every get_uintN/get_struct unpacks exactly calcsize(format) octets",
     "R-04.6": "every `while` loop on a parse path consumes input (or strictly decreases a measure) on every trip",
     "R-04.8": "values returned by the parsers can be rendered: the constructor validators that back every encoder-side `assert l < N` / struct width bound the value they return (shared with C05 R-05.5; the per-encoder interval check is C05 R-05.1)",
+    "R-04.11": "a wire reader decodes text strictly: a lenient error handler (surrogateescape / ignore / replace) on `.decode()` in a from_wire_parser accepts octets that the class's strict `.encode()` cannot write back, so hashing, comparing or re-rendering the parsed value raises UnicodeEncodeError outside every wrapper",
     "R-04.10": "what the wire parser accepts can be printed: integer fields printed through an enum's to_text were bounded to that enum's range by the constructor (C05 R-05.11 adopted) - otherwise from_wire succeeds and to_text of the result raises a bare ValueError",
     "R-04.9": "a failed record leaves the parser usable: Parser.restrict_to restores the previous end in a `finally` (C02 R-02.2 restrict-shape adopted), otherwise every record after a damaged one is reported as malformed under continue_on_error",
     "R-04.7": "continue_on_error: failures after the header are recorded with the parser offset and the reader resynchronises; Truncated is raised only on request",
@@ -515,6 +516,19 @@ def run(model, rep, tier):
     check_validators(model, rep, "R-04.8")
     rep.assume("AttributeError/TypeError from None-dereference or wrong attribute are outside the implicit-raise table (pyright on the pinned tree reports none in the parse zone)")
     rep.assume("third-party idna / hashlib / hmac behave as documented; user callbacks (callable keyring, GSSAPI context) are outside the analysed program")
+    n_dec = 0
+    for fd in sorted(model.all_functions(), key=lambda g: g.qualname):
+        if fd.name not in ("from_wire_parser", "from_wire") or not (fd.module.name.startswith("dns.rdtypes") or fd.module.name in ("dns.edns", "dns.rdata")):
+            continue
+        for c in ast.walk(fd.node):
+            if isinstance(c, ast.Call) and isinstance(c.func, ast.Attribute) and c.func.attr == "decode" and not (isinstance(c.func.value, ast.Name) and c.func.value.id in ("codecs", "base64", "binascii")):
+                n_dec += 1
+                handler = c.args[1] if len(c.args) > 1 else next((k.value for k in c.keywords if k.arg == "errors"), None)
+                lenient = handler is not None and not (isinstance(handler, ast.Constant) and handler.value == "strict")
+                rep.check(not lenient, "R-04.11", fd.qualname, where(fd, c), f"`{src(c)[:40]}` decodes strictly",
+                          f"`{src(c)[:60]}` decodes wire octets with a lenient handler: the value is accepted, but the strict encode in to_wire()/__hash__ raises UnicodeEncodeError later, outside the "
+                          "FormError wrapper", stmt=f"strict-decode {src(c.func.value)[:30]}")
+    rep.floor("R-04.11", n_dec, 3)
     rep.share(model, "C05", {"R-05.11"}, "R-04.10", "every rdata constructor runs inside the FormError wrapper of from_wire; text production of the parsed value does not")
     rep.share(model, "C02", {"R-02.2"}, "R-04.9", "rdata and EDNS options are parsed inside `with parser.restrict_to(rdlen)`; continue_on_error keeps using the same parser after a failure", only=lambda o: o.stmt == "restrict-shape")
     rep.meta["explanation"] = (
@@ -525,6 +539,8 @@ def run(model, rep, tier):
 
 
 WITNESSES = [
+    {"id": "c04-ede-decodes-with-surrogateescape", "rule": "R-04.11", "file": "dns/edns.py", "expect": "fires",
+     "old": "            btext = text.decode(\"utf8\")", "new": "            btext = text.decode(\"utf8\", \"surrogateescape\")"},
     {"id": "c04-question-outside-recording-try", "rule": "R-04.7", "file": "dns/message.py", "expect": "fires",
      "old": "        try:\n            self._get_question(MessageSection.QUESTION, qcount)\n            if self.question_only:\n                return self.message\n",
      "new": "        self._get_question(MessageSection.QUESTION, qcount)\n        if self.question_only:\n            return self.message\n        try:\n"},
